@@ -329,6 +329,13 @@ def main():
             cases = corpus + mod.gen_cases(rng, tier)
             corpus_n = len(corpus)
         results = run_impl(mod, cases)
+        # a Timeout under machine load must not become a false alarm: confirm each one alone with a much longer limit
+        slow = [i for i, r in enumerate(results) if r.get('status') == 'Timeout']
+        base_to = getattr(mod, 'CASE_TIMEOUT', 5)
+        for i in slow[:25]:
+            r2 = run_impl(mod, [cases[i]], per_case_timeout=max(30, 10 * base_to), shards=1)[0]
+            if r2.get('status') != 'Timeout':
+                results[i] = r2
         obs = [r['obs'] for r in results]
         mism, shown, merr = ([], {}, None)
         model_ok = not any(x.startswith(('proof', 'translation')) for x in b.broken) or os.path.exists(os.path.join(COQ, mod.COQ_EXEC[0].replace('.', '/') + '.vo'))
